@@ -149,6 +149,8 @@ class Ctx:
             self.notes["disagreements_truncated"] = self.notes.get("disagreements_truncated", 0) + 1
 
     def violate(self, key: str, what: str, replay):
+        if getattr(self, "part", None) and isinstance(replay, dict) and "part" not in replay:
+            replay = dict(replay, part=self.part)
         if len(self.violations) < 200:
             self.violations.append({"key": key, "what": what, "replay": replay})
 
